@@ -12,6 +12,7 @@ import (
 	"fmt"
 	"sort"
 	"strings"
+	"sync"
 
 	"github.com/benoitkugler/gomacro/generator"
 
@@ -35,6 +36,8 @@ type params struct {
 	Stream []decl  `json:"stream"`
 	Faults []fault `json:"faults"`
 	Origin string  `json:"origin"` // synthetic | sweep | real:<program/file/target>
+	// Concurrent > 1: that many goroutines assemble their own copy at once
+	Concurrent int `json:"concurrent,omitempty"`
 }
 
 type c19 struct{}
@@ -161,6 +164,9 @@ func (c19) Generate(env *kernel.Env, r *kernel.Rand, index int) any {
 			f.A = r.Intn(length + 1)
 		}
 		p.Faults = append(p.Faults, f)
+	}
+	if r.Chance(1, 25) && len(p.Stream) > 3 {
+		p.Concurrent = r.Range(2, 8)
 	}
 	if r.Chance(1, 40) && len(p.Stream) > 0 {
 		// a flood: one declaration requested hundreds of times (a shared helper
@@ -353,6 +359,38 @@ func (c19) Execute(env *kernel.Env, raw json.RawMessage, ch *kernel.Choices) *ke
 		out.Steps++
 		if got != base {
 			return viol("result_depends_on_delivery", fmt.Sprintf("supplied  %s\ndelivered %s (after %s)\noutput for supplied order:  %q\noutput for delivered order: %q", ids(p.Stream), ids(delivered), f.Kind, base, got))
+		}
+	}
+	// the assembler is a function of its argument: several goroutines assembling
+	// their own copies at the same time get the same text (uncontrolled
+	// cross-check: real goroutines, it can only fail if calls share state)
+	if p.Concurrent > 1 {
+		results := make([]string, p.Concurrent)
+		var wg sync.WaitGroup
+		for g := 0; g < p.Concurrent; g++ {
+			wg.Add(1)
+			go func(g int) {
+				defer wg.Done()
+				defer func() {
+					if r := recover(); r != nil {
+						results[g] = fmt.Sprintf("PANIC: %v", r)
+					}
+				}()
+				for rep := 0; rep < 20; rep++ {
+					results[g] = generator.WriteDeclarations(toReal(p.Stream))
+					if results[g] != base {
+						return
+					}
+				}
+			}(g)
+		}
+		wg.Wait()
+		out.Steps += int64(p.Concurrent)
+		out.Probe("concurrent_assemblies")
+		for _, r := range results {
+			if r != base {
+				return viol("concurrent_assembly_differs", fmt.Sprintf("supplied %s\nalone:      %q\nconcurrent: %q", ids(p.Stream), base, r))
+			}
 		}
 	}
 	if len(byID) >= 2 && ids(delivered) != ids(p.Stream) {
